@@ -2,10 +2,11 @@
 from . import sched as S, elements, keydomains
 
 def check(ctx):
-    S.run_tables(ctx, 'C15', [('DRR', '__init__'), ('DRR', 'put'), ('DRR', 'run'), ('RR', '__init__'), ('RR', 'run'),
+    S.run_tables(ctx, 'C15', [('DRR', '__init__'), ('DRR', 'put'), ('DRR', 'run'), ('DRR', 'serve'), ('RR', '__init__'), ('RR', 'run'),
                               ('WRR', '__init__'), ('WRR', 'run'), ('MultiQueueScheduler', 'put'),
                               ('Scheduler', 'send_packet'), ('Scheduler', 'add_packet_to_queue')])
     elements.send_packet_awaited(ctx, 'C15', only=('DRR', 'RR', 'WRR'))
+    elements.departure_bookkeeping_atomic(ctx, 'C15', only=('DRR', 'RR', 'WRR'))
     keydomains.check(ctx, 'C15', only=('DRR', 'RR', 'WRR'))
     elements.class_method_sets(ctx, 'C15', only=('DRR', 'RR', 'WRR'))
     return ('Static: DRR.__init__ (quantum 1500*w/min w, zero credit, declaration order), DRR.run (credit += quantum once '
